@@ -21,7 +21,7 @@ LEVEL = "exploration"
 OBJ_CLASSES = ["Cuboid", "Cylinder", "Sphere", "Tetrahedron", "TriangularMesh", "Triangle", "Circle", "Polyline",
                "Dipole", "Sensor", "Collection", "CustomSource", "CylinderSegment"]
 OBJ_NOTATIONS = ["magic_update", "nested_update", "attr", "assign_dict", "assign_magic_dict", "mixed_update",
-                 "magic_then_dict", "attr_dict"]
+                 "magic_then_dict", "attr_dict", "str_shortcut"]
 CTOR_NOTATIONS = ["ctor_magic", "ctor_dict", "ctor_mixed"]
 DEF_NOTATIONS = ["fam_update", "style_update_nested", "style_update_magic", "attr", "display_update",
                  "fam_mixed_update", "fam_attr_dict", "fam_assign_dict"]
@@ -74,6 +74,16 @@ def flat(style):
     return {k: sm.norm(v) for k, v in d.items() if not sm.is_alias(k)}
 
 
+def own_flat(o, i="?"):
+    """flat own style of an object; merely reading obj.style must never raise in a session whose writes
+    were all accepted or rejected cleanly"""
+    try:
+        return flat(o.style)
+    except Exception as e:
+        raise Violation("style_access_raised", f"reading the style of object {i} ({type(o).__name__}) raised "
+                        f"{type(e).__name__}: {str(e)[:120]}", op="read") from None
+
+
 _BOOM = {"calls": 0}
 
 
@@ -120,7 +130,7 @@ class C20Session(Session):
 
     def _state(self):
         """canonical observable style state of the whole session"""
-        objs = [flat(o.style) for o in self.world.objs]
+        objs = [own_flat(o, i) for i, o in enumerate(self.world.objs)]
         for d in objs:
             d.pop("model3d_data", None)
         dfl = flat(self._settings().display.style)
@@ -133,7 +143,7 @@ class C20Session(Session):
         sig = {"op": op["op"], "notation": op.get("notation")}
         # 1. own styles
         for i, o in enumerate(self.world.objs):
-            own = flat(o.style)
+            own = own_flat(o, i)
             for leaf, want in M.S[i].items():
                 if leaf == "model3d_data":
                     continue
@@ -280,6 +290,16 @@ class C20Session(Session):
             o.style.update(**magic_then_dict_kwargs(items))
         elif notation == "attr_dict":
             assign_sub_dicts(o.style, items)
+        elif notation == "str_shortcut":
+            # description / legend given as a plain string = another way of writing their `text` leaf
+            for leaf, v in items:
+                if leaf in ("description_text", "legend_text") and isinstance(v, str):
+                    if self.step % 2:
+                        setattr(o.style, leaf.split("_")[0], v)
+                    else:
+                        o.style.update(**{leaf.split("_")[0]: v})
+                else:
+                    o.style.update(**{leaf: own(v, leaf)})
         else:
             raise HarnessError(notation)
 
@@ -301,6 +321,9 @@ class C20Session(Session):
                 raise Violation("caller_dict_mutated", "the constructor changed the caller's style dict",
                                 op="new_obj", notation=notation)
             kw["style"].clear()  # the caller re-uses its dict before the (lazily created) style is first used
+        for lst in _SCRIBBLE:  # ... and its list values (given as keywords or inside the dict)
+            lst.append("scribbled-by-caller")
+        _SCRIBBLE.clear()
         o.style  # noqa: B018  lazily created style: invalid input surfaces here at the latest
         return o
 
@@ -728,7 +751,8 @@ class Sim:
         return items
 
     def _invalid(self, rng, items, leaves):
-        out = [{"kind": "bad_leaf", "items": [[rng.choice(["bogus", "path_bogus", "colour", "path_line_widht"]), 1]]}]
+        out = [{"kind": "bad_leaf", "items": [[rng.choice(["bogus", "path_bogus", "colour", "path_line_widht", "copy",
+                                                           "update", "path_update", "as_dict", "path_copy"]), 1]]}]
         leaf, val = items[0]
         inv = sm.INVALID.get(sm.kind_of(leaf))
         if inv:
@@ -770,6 +794,9 @@ class Sim:
                                              if "magnetization_arrow_size" in M.S[o]]
             items = self._items(rng, cfg, leaves, prefer=[k for k, v in M.S[o].items() if v is not None])
             notation = rng.choice(cfg["obj_notations"])
+            if notation == "str_shortcut":
+                tl = rng.choice(["description_text", "legend_text"])
+                items = [it for it in items if it[0] != tl] + [[tl, rng.choice(sm.VALID["text"])]]
             op = {"op": "obj_set", "o": o, "notation": notation, "items": items}
             if cfg["invalid"]:
                 op["invalid"] = self._invalid(rng, items, self._leaves(M.S[o]))
